@@ -309,6 +309,40 @@ def gen_cases(rng, tier, only_forms=None):
                 cases.append({'kind': 'network', 'tag': 'grid', 'N': Ns, 'D': Ds, 'form': form, 'mode': 'impedance'})
             if form.startswith('parallel') or form == 'RLC':
                 cases.append({'kind': 'network', 'tag': 'grid', 'N': Ds, 'D': Ns, 'form': form, 'mode': 'impedance'})
+    # refusal inputs for every direct form: terms the form CAN realise plus one it cannot
+    # (another power of s, a constant / s / 1/s term where the form has none, a finite pole);
+    # the only acceptable outcomes are an error or a network with exactly this immittance
+    nref = 1 if tier == 'quick' else 4
+    for form in FORMS:
+        spec = allowed_powers(form) or ((True, {'Pm1', 'P0', 'P1'}) if form == 'RLC' else None)
+        if spec is None or (only_forms and form not in only_forms):
+            continue
+        ser, pw = spec
+        expo = {'Pm1': -1, 'P0': 0, 'P1': 1}
+        allowed = sorted(expo[p] for p in pw)
+        extras = [('pow', 2), ('pow', -2), ('pow', 3), ('pow', -3), ('pole', None)] + [('pow', k) for k in (-1, 0, 1) if k not in allowed]
+        for kind, k in extras:
+            for rep in range(nref):
+                keep = [e for e in allowed if rng.random() < 0.7] if rep else list(allowed)
+                # E = sum c_e s^e + bad term, as N/D with D = s^3 (and the pole factor)
+                N = [F(0)] * 7
+                for e in keep:
+                    N[e + 3] += rz(rng, neg=True)
+                D = [F(0), F(0), F(0), F(1)]
+                if kind == 'pow':
+                    N[k + 3] += rz(rng, neg=True)
+                else:
+                    pole = [rz(rng, 1, 5, 2), F(1)]
+                    N = padd(pmul(ptrim(N), pole), [c * rz(rng, neg=True) for c in D])
+                    D = pmul(D, pole)
+                N = ptrim(N)
+                if not N:
+                    continue
+                En, Ed = lowest_terms(N, D)
+                for direct in ([True, False] if form == 'RLC' else [ser]):
+                    Zn, Zd = (En, Ed) if direct else (Ed, En)
+                    cases.append({'kind': 'network', 'tag': 'refusal', 'N': Zn, 'D': Zd, 'form': form,
+                                  'mode': 'impedance', 'bad': '%s%s' % (kind, '' if k is None else k)})
     # transform of random networks (positive and negative element values)
     nt = 14 if tier == 'quick' else 150
     tforms = ['cauerI', 'cauerII', 'fosterI', 'fosterII']
@@ -374,6 +408,10 @@ def gen_theorems(tr):
             raise T.Untranslatable('lcapy/synthesis.py: no specification for pattern realiser %s (name not of the form series|parallel + RGLC)' % nm)
         ser, pw = spec
         lau = 'laurent3 n d' if ser else 'laurent3 d n'
+        # the realised immittance equals the input only if NOTHING is left in the dictionary:
+        # the test before the return must be the exhaustiveness test
+        out.append('Theorem guard_%s_exhaustive : p_exhaust pat_%s = true.\nProof. reflexivity. Qed.' % (nm, nm))
+        names.append('guard_%s_exhaustive' % nm)
         out.append('Lemma coeff_%s : coeff_sound (K:=K) pat_%s.\nProof. coeff_sound_tac K pat_%s. Qed.' % (nm, nm, nm))
         out.append('Theorem pattern_%s_realises : forall (n d : list K) nt x,\n'
                    '  pattern_run pat_%s (n, d) = Ok (Some nt) -> x <> 0 -> peval d x <> 0 -> Zwf nt x ->\n'
@@ -575,6 +613,29 @@ def cases_v(tr, items):
 
 
 # ---- fingerprints --------------------------------------------------------------------------
+def independent_check(c, r):
+    """exact recomputation, from the STRUCTURE of the returned network alone (tree_Z: Fractions,
+    no lcapy, no sympy), of its impedance n/d and comparison with the request N/D by
+    cross-multiplication.  True / False / None (not applicable)"""
+    if r.get('status') != 'net' or r.get('tree') is None:
+        return None
+    try:
+        n, d = tree_Z(r['tree'])
+        if c['kind'] == 'transform':
+            N, D = tree_Z(c['net'])
+        elif c.get('sym'):
+            if r.get('zreq') is None:
+                return None
+            N, D = [F(x) for x in r['zreq'][0]], [F(x) for x in r['zreq'][1]]
+        else:
+            N, D = [F(x) for x in c['N']], [F(x) for x in c['D']]
+    except ZeroDivisionError:
+        return None
+    if not ptrim(d) or not ptrim(D):
+        return None
+    return pmul(ptrim(n), ptrim(D)) == pmul(ptrim(N), ptrim(d))
+
+
 def classify(c):
     """structural class of the requested function, used in violation keys"""
     if c['kind'] == 'transform':
@@ -584,8 +645,8 @@ def classify(c):
 
 def obligation_form(name):
     """the synthesis form a generated statement is about"""
-    m = re.match(r'(?:pattern|coeff)_([A-Za-z]+?)(?:_realises|_rejects_\w+|_form)?$', name)
-    if m and name.startswith(('pattern_', 'coeff_')):
+    m = re.match(r'(?:pattern|coeff|guard)_([A-Za-z]+?)(?:_realises|_rejects_\w+|_form|_exhaustive)?$', name)
+    if m and name.startswith(('pattern_', 'coeff_', 'guard_')):
         return m.group(1)
     m = re.match(r'([A-Za-z]+)_realises$', name)
     if m:
@@ -691,8 +752,12 @@ def run(tier='quick', replay=None):
             res.add_case(json.dumps({k: v for k, v in c.items() if k != 'xs'}, sort_keys=True), st == 'net',
                          {'case': {k: v for k, v in c.items() if k != 'xs'}, 'lcapy': r.get('text', r.get('errtype', st)), 'oracle': r.get('oracle')}
                          if (i % 97 == 3 and st == 'net') else None)
+            ind = independent_check(c, r)
+            res.count('independent_' + {True: 'ok', False: 'bad', None: 'na'}[ind])
             if r.get('oracle') == 'bad':
                 res.counterexamples.append({'case': c, 'lcapy': r, 'via': 'oracle'})
+            elif ind is False:
+                res.counterexamples.append({'case': c, 'lcapy': r, 'via': 'independent-recomputation'})
             if r.get('sdep'):
                 res.counterexamples.append({'case': c, 'lcapy': r, 'via': 's-dependent-element'})
             if gen_ok:
@@ -743,6 +808,8 @@ def run(tier='quick', replay=None):
                   '(%s)' % idx_note.get(0, 'not compared'))
             print('impedance :', 'equal at the test points (Coq Zev)' if 0 not in corr_fail or not (corr_fail[0] & 2) else 'DIFFERS (Coq Zev)')
             print('oracle    :', results[0].get('oracle'), results[0].get('zdiff', ''))
+            print('recomputed:', {True: 'equal', False: 'DIFFERS', None: 'n/a'}[independent_check(cases[0], results[0])],
+                  '(impedance from the returned structure alone, exact fractions)')
 
         # 4. decide
         seen = {}
